@@ -648,4 +648,418 @@ theorem answers_of_perm {m : IndexType} {ps ps' : List IndexPack} (hu : ps.Perm 
   · rw [totalSize_filed h, totalSize_filed h']
     exact ((hu.filter _).map _).sum_nat
 
+
+/-! ### `repair_index` -/
+
+theorem lookupRemove_none {id : Nat} {l : List (Nat × Nat)} :
+    lookupRemove id l = none ↔ id ∉ l.map (·.1) := by
+  induction l with
+  | nil => simp [lookupRemove]
+  | cons e es ih =>
+    obtain ⟨i, s⟩ := e
+    simp only [lookupRemove, List.map_cons, List.mem_cons]
+    by_cases h : i = id
+    · simp [h]
+    · simp only [h, if_false]
+      cases hr : lookupRemove id es with
+      | none => simp [ih.mp hr, Ne.symm h]
+      | some v =>
+        obtain ⟨s', r'⟩ := v
+        simp only [reduceCtorEq, false_iff]
+        intro hcon
+        apply hcon
+        right
+        apply Classical.byContradiction
+        intro hn
+        rw [ih.mpr hn] at hr
+        cases hr
+
+theorem lookupRemove_some {id s : Nat} {l rest : List (Nat × Nat)} (hnd : (l.map (·.1)).Nodup)
+    (h : lookupRemove id l = some (s, rest)) :
+    (id, s) ∈ l ∧ (∀ e, e ∈ rest ↔ e ∈ l ∧ e.1 ≠ id) ∧ (rest.map (·.1)).Nodup := by
+  induction l generalizing rest with
+  | nil => simp [lookupRemove] at h
+  | cons e es ih =>
+    obtain ⟨i, s0⟩ := e
+    rw [List.map_cons, List.nodup_cons] at hnd
+    simp only [lookupRemove] at h
+    by_cases hi : i = id
+    · subst hi
+      simp only [if_true, Option.some.injEq, Prod.mk.injEq] at h
+      obtain ⟨rfl, rfl⟩ := h
+      refine ⟨List.mem_cons_self .., ?_, hnd.2⟩
+      intro e
+      constructor
+      · intro he
+        refine ⟨List.mem_cons_of_mem _ he, ?_⟩
+        intro heq
+        exact hnd.1 (List.mem_map.mpr ⟨e, he, heq⟩)
+      · rintro ⟨he, hne⟩
+        rcases List.mem_cons.mp he with rfl | he
+        · exact absurd rfl hne
+        · exact he
+    · simp only [hi, if_false] at h
+      cases hr : lookupRemove id es with
+      | none => rw [hr] at h; cases h
+      | some v =>
+        obtain ⟨s', r'⟩ := v
+        rw [hr] at h
+        simp only [Option.some.injEq, Prod.mk.injEq] at h
+        obtain ⟨rfl, rfl⟩ := h
+        obtain ⟨h1, h2, h3⟩ := ih hnd.2 hr
+        refine ⟨List.mem_cons_of_mem _ h1, ?_, ?_⟩
+        · intro e
+          simp only [List.mem_cons, h2]
+          constructor
+          · rintro (rfl | ⟨he, hne⟩)
+            · exact ⟨Or.inl rfl, hi⟩
+            · exact ⟨Or.inr he, hne⟩
+          · rintro ⟨rfl | he, hne⟩
+            · exact Or.inl rfl
+            · exact Or.inr ⟨he, hne⟩
+        · rw [List.map_cons, List.nodup_cons]
+          refine ⟨?_, h3⟩
+          intro hm
+          obtain ⟨e, he, heq⟩ := List.mem_map.mp hm
+          exact hnd.1 (List.mem_map.mpr ⟨e, ((h2 e).mp he).1, heq⟩)
+
+
+def FileListed (f : IndexFile) (p : IndexPack) : Prop := p ∈ f.packs ∨ p ∈ f.packsToDelete
+def Listed (fs : List IndexFile) (p : IndexPack) : Prop := ∃ f ∈ fs, FileListed f p
+
+/-- an index entry of a stored pack agrees with the pack (blobs as in its header, hence the same size) -/
+def ConsistentPack (store : List (Nat × Nat)) (blobsOf : Nat → List IndexBlob) (p : IndexPack) : Prop :=
+  ∀ e ∈ store, e.1 = p.id → p.blobs = blobsOf p.id ∧ p.packSize = e.2
+
+/-- invariant of both loops of `repair_index` (no `read_all`, consistent index entries) -/
+structure RInv (store : List (Nat × Nat)) (blobsOf : Nat → List IndexBlob)
+    (rem : List (Nat × Nat)) (toRead : List (Nat × Option Nat × Nat)) (fs : List IndexFile) : Prop where
+  noRead : toRead = []
+  nodup : (rem.map (·.1)).Nodup
+  sub : ∀ e ∈ rem, e ∈ store
+  good : ∀ p, Listed fs p → (∃ e ∈ store, e.1 = p.id) ∧ p.blobs = blobsOf p.id ∧ p.id ∉ rem.map (·.1)
+  cover : ∀ e ∈ store, e ∈ rem ∨ ∃ p, Listed fs p ∧ p.id = e.1
+
+theorem RInv.congr {store blobsOf rem toRead fs fs'} (h : RInv store blobsOf rem toRead fs)
+    (hl : ∀ p, Listed fs' p ↔ Listed fs p) : RInv store blobsOf rem toRead fs' :=
+  ⟨h.noRead, h.nodup, h.sub, fun p hp => h.good p ((hl p).mp hp),
+   fun e he => (h.cover e he).imp id (fun ⟨p, hp, hid⟩ => ⟨p, (hl p).mpr hp, hid⟩)⟩
+
+theorem listed_append_single (out : List IndexFile) (f : IndexFile) (p : IndexPack) :
+    Listed (out ++ [f]) p ↔ Listed out p ∨ FileListed f p := by
+  simp only [Listed, List.mem_append, List.mem_singleton]
+  constructor
+  · rintro ⟨g, hg | rfl, hp⟩
+    · exact Or.inl ⟨g, hg, hp⟩
+    · exact Or.inr hp
+  · rintro (⟨g, hg, hp⟩ | hp)
+    · exact ⟨g, Or.inl hg, hp⟩
+    · exact ⟨f, Or.inr rfl, hp⟩
+
+theorem fileListed_add (f : IndexFile) (q : IndexPack) (d : Bool) (p : IndexPack) :
+    FileListed (f.add q d) p ↔ FileListed f p ∨ p = q := by
+  cases d
+  · simp only [IndexFile.add, FileListed, Bool.false_eq_true, if_false, List.mem_append, List.mem_singleton]
+    constructor
+    · rintro ((h | h) | h)
+      · exact Or.inl (Or.inl h)
+      · exact Or.inr h
+      · exact Or.inl (Or.inr h)
+    · rintro ((h | h) | h)
+      · exact Or.inl (Or.inl h)
+      · exact Or.inr h
+      · exact Or.inl (Or.inr h)
+  · simp only [IndexFile.add, FileListed, if_true, List.mem_append, List.mem_singleton]
+    constructor
+    · rintro (h | h | h)
+      · exact Or.inl (Or.inl h)
+      · exact Or.inl (Or.inr h)
+      · exact Or.inr h
+    · rintro ((h | h) | h)
+      · exact Or.inl h
+      · exact Or.inr (Or.inl h)
+      · exact Or.inr (Or.inr h)
+
+theorem checkOne_inv {store blobsOf} (out : List IndexFile) (a : CheckAcc) (pd : IndexPack × Bool)
+    (hc : ConsistentPack store blobsOf pd.1)
+    (h : RInv store blobsOf a.remaining a.toRead (out ++ [a.newIndex])) :
+    RInv store blobsOf (checkOne false a pd).remaining (checkOne false a pd).toRead
+      (out ++ [(checkOne false a pd).newIndex]) := by
+  unfold checkOne
+  cases hl : lookupRemove pd.1.id a.remaining with
+  | none => exact h
+  | some v =>
+    obtain ⟨size, rest⟩ := v
+    obtain ⟨hmem, hrest, hnd⟩ := lookupRemove_some h.nodup hl
+    have hst := h.sub _ hmem
+    obtain ⟨hb, hsz⟩ := hc _ hst rfl
+    have hno : ¬ (pd.1.packSize ≠ size ∨ false = true) := by simp [hsz]
+    simp only [hno, if_false]
+    refine ⟨h.noRead, hnd, fun e he => h.sub e ((hrest e).mp he).1, ?_, ?_⟩
+    · intro p hp
+      rw [listed_append_single, fileListed_add, ← or_assoc, ← listed_append_single] at hp
+      rcases hp with hp | rfl
+      · obtain ⟨g1, g2, g3⟩ := h.good p hp
+        refine ⟨g1, g2, ?_⟩
+        intro hm
+        obtain ⟨e, he, heq⟩ := List.mem_map.mp hm
+        exact g3 (List.mem_map.mpr ⟨e, ((hrest e).mp he).1, heq⟩)
+      · refine ⟨⟨_, hst, rfl⟩, hb, ?_⟩
+        intro hm
+        obtain ⟨e, he, heq⟩ := List.mem_map.mp hm
+        exact ((hrest e).mp he).2 heq
+    · intro e he
+      rcases h.cover e he with hr | ⟨p, hp, hid⟩
+      · by_cases hid : e.1 = pd.1.id
+        · right
+          refine ⟨pd.1, ?_, hid.symm⟩
+          rw [listed_append_single, fileListed_add]
+          exact Or.inr (Or.inr rfl)
+        · exact Or.inl ((hrest e).mpr ⟨hr, hid⟩)
+      · right
+        refine ⟨p, ?_, hid⟩
+        rw [listed_append_single, fileListed_add, ← or_assoc, ← listed_append_single]
+        exact Or.inl hp
+
+
+theorem foldl_checkOne_inv {store blobsOf} (out : List IndexFile) (L : List (IndexPack × Bool)) (a : CheckAcc)
+    (hc : ∀ pd ∈ L, ConsistentPack store blobsOf pd.1)
+    (h : RInv store blobsOf a.remaining a.toRead (out ++ [a.newIndex])) :
+    RInv store blobsOf (L.foldl (checkOne false) a).remaining (L.foldl (checkOne false) a).toRead
+      (out ++ [(L.foldl (checkOne false) a).newIndex]) := by
+  induction L generalizing a with
+  | nil => exact h
+  | cons pd L ih =>
+    rw [List.foldl_cons]
+    exact ih _ (fun q hq => hc q (List.mem_cons_of_mem _ hq))
+      (checkOne_inv out a pd (hc pd (List.mem_cons_self ..)) h)
+
+/-- an unchanged file was kept entry by entry: the rebuilt file lists exactly what the old one listed -/
+theorem foldl_checkOne_unchanged (readAll : Bool) (L : List (IndexPack × Bool)) (a : CheckAcc)
+    (h : (L.foldl (checkOne readAll) a).changed = false) (p : IndexPack) :
+    FileListed (L.foldl (checkOne readAll) a).newIndex p ↔ FileListed a.newIndex p ∨ ∃ d, (p, d) ∈ L := by
+  induction L generalizing a with
+  | nil => simp
+  | cons pd L ih =>
+    rw [List.foldl_cons] at h ⊢
+    have mono : ∀ (L : List (IndexPack × Bool)) (b : CheckAcc), b.changed = true →
+        (L.foldl (checkOne readAll) b).changed = true := by
+      intro L
+      induction L with
+      | nil => intro b hb; exact hb
+      | cons q L ihL =>
+        intro b hb
+        rw [List.foldl_cons]
+        apply ihL
+        unfold checkOne
+        split
+        · rfl
+        · split <;> simp [hb]
+    have hstep : (checkOne readAll a pd).changed = false := by
+      cases hch : (checkOne readAll a pd).changed with
+      | false => rfl
+      | true => rw [mono L _ hch] at h; cases h
+    rw [ih _ h]
+    -- the step kept `pd`
+    have hkeep : (checkOne readAll a pd).newIndex = a.newIndex.add pd.1 pd.2 := by
+      unfold checkOne at hstep ⊢
+      split at hstep
+      · simp at hstep
+      · split at hstep
+        · simp at hstep
+        · rename_i hl _ ; simp_all
+    rw [hkeep, fileListed_add]
+    simp only [List.mem_cons]
+    constructor
+    · rintro ((h1 | rfl) | ⟨d, hd⟩)
+      · exact Or.inl h1
+      · exact Or.inr ⟨pd.2, Or.inl rfl⟩
+      · exact Or.inr ⟨d, Or.inr hd⟩
+    · rintro (h1 | ⟨d, rfl | hd⟩)
+      · exact Or.inl (Or.inl h1)
+      · exact Or.inl (Or.inr rfl)
+      · exact Or.inr ⟨d, hd⟩
+
+theorem mem_allPacks (f : IndexFile) (p : IndexPack) : (∃ d, (p, d) ∈ f.allPacks) ↔ FileListed f p := by
+  simp only [IndexFile.allPacks, FileListed, List.mem_append, List.mem_map, Prod.mk.injEq]
+  constructor
+  · rintro ⟨d, ⟨q, hq, rfl, _⟩ | ⟨q, hq, rfl, _⟩⟩
+    · exact Or.inl hq
+    · exact Or.inr hq
+  · rintro (h | h)
+    · exact ⟨false, Or.inl ⟨p, h, rfl, rfl⟩⟩
+    · exact ⟨true, Or.inr ⟨p, h, rfl, rfl⟩⟩
+
+theorem repairFile_inv {store blobsOf} (st : RepairAcc) (f : IndexFile)
+    (hc : ∀ p, FileListed f p → ConsistentPack store blobsOf p)
+    (h : RInv store blobsOf st.remaining st.toRead st.out) :
+    RInv store blobsOf (repairFile false st f).remaining (repairFile false st f).toRead (repairFile false st f).out := by
+  have h0 : RInv store blobsOf st.remaining st.toRead (st.out ++ [({ packs := [], packsToDelete := [] } : IndexFile)]) := by
+    apply h.congr
+    intro p
+    rw [listed_append_single]
+    simp [FileListed]
+  have hfold := foldl_checkOne_inv st.out f.allPacks
+    { remaining := st.remaining, toRead := st.toRead, newIndex := { packs := [], packsToDelete := [] }, changed := false }
+    (fun pd hpd => hc pd.1 ((mem_allPacks f pd.1).mp ⟨pd.2, hpd⟩)) h0
+  unfold repairFile
+  simp only
+  generalize hr : f.allPacks.foldl (checkOne false)
+    { remaining := st.remaining, toRead := st.toRead, newIndex := { packs := [], packsToDelete := [] }, changed := false } = r
+    at hfold
+  apply hfold.congr
+  intro p
+  cases hch : r.changed with
+  | true =>
+    simp only [if_true]
+    split
+    · rename_i hempty
+      rw [listed_append_single]
+      simp only [Bool.and_eq_true, List.isEmpty_iff] at hempty
+      simp [FileListed, hempty.1, hempty.2]
+    · exact Iff.rfl
+  | false =>
+    simp only [Bool.false_eq_true, if_false]
+    rw [listed_append_single, listed_append_single]
+    have := foldl_checkOne_unchanged false f.allPacks _ (by rw [hr]; exact hch) p
+    rw [hr] at this
+    rw [this, mem_allPacks]
+    simp [FileListed]
+
+
+theorem foldl_repairFile_inv {store blobsOf} (files : List IndexFile) (st : RepairAcc)
+    (hc : ∀ f ∈ files, ∀ p, FileListed f p → ConsistentPack store blobsOf p)
+    (h : RInv store blobsOf st.remaining st.toRead st.out) :
+    RInv store blobsOf (files.foldl (repairFile false) st).remaining (files.foldl (repairFile false) st).toRead
+      (files.foldl (repairFile false) st).out := by
+  induction files generalizing st with
+  | nil => exact h
+  | cons f fs ih =>
+    rw [List.foldl_cons]
+    exact ih _ (fun g hg => hc g (List.mem_cons_of_mem _ hg))
+      (repairFile_inv st f (hc f (List.mem_cons_self ..)) h)
+
+/-- `repair_index` (no `read_all`) on a store whose pack headers are readable, starting from ANY set of index files
+whose entries agree with the packs they name (in particular: any subset of a consistent index, or none at all):
+afterwards every listed pack is a stored pack with the blobs of its header, and every stored pack is listed. -/
+theorem repairIndex_spec (readHeader : Nat → Option Nat → Nat → Option (List IndexBlob)) (store : List (Nat × Nat))
+    (blobsOf : Nat → List IndexBlob) (files : List IndexFile)
+    (hnd : (store.map (·.1)).Nodup)
+    (hread : ∀ e ∈ store, ∀ hint, readHeader e.1 hint e.2 = some (blobsOf e.1))
+    (hc : ∀ f ∈ files, ∀ p, FileListed f p → ConsistentPack store blobsOf p) :
+    (∀ p, Listed (repairIndex readHeader store files false) p →
+        (∃ e ∈ store, e.1 = p.id) ∧ p.blobs = blobsOf p.id) ∧
+    (∀ e ∈ store, ∃ p, Listed (repairIndex readHeader store files false) p ∧ p.id = e.1) := by
+  have hinit : RInv store blobsOf store [] [] :=
+    ⟨rfl, hnd, fun e he => he, fun p hp => by obtain ⟨f, hf, _⟩ := hp; exact absurd hf (List.not_mem_nil),
+     fun e he => Or.inl he⟩
+  have hinv := foldl_repairFile_inv files { remaining := store, toRead := [], out := [] } hc hinit
+  unfold repairIndex
+  simp only
+  generalize files.foldl (repairFile false) { remaining := store, toRead := [], out := [] } = st at hinv
+  have hnew : (st.toRead ++ st.remaining.map (fun e => (e.1, (none : Option Nat), e.2))).filterMap
+      (fun r => (readHeader r.1 r.2.1 r.2.2).map fun bl => ({ id := r.1, blobs := bl, size := none } : IndexPack)) =
+      st.remaining.map (fun e => ({ id := e.1, blobs := blobsOf e.1, size := none } : IndexPack)) := by
+    rw [hinv.noRead, List.nil_append, List.filterMap_map]
+    have hsub := hinv.sub
+    generalize st.remaining = rem at hsub
+    induction rem with
+    | nil => rfl
+    | cons e es ih =>
+      have he := hread e (hsub e (List.mem_cons_self ..)) none
+      simp only [List.filterMap_cons, Function.comp, he, Option.map_some, List.map_cons]
+      rw [ih (fun x hx => hsub x (List.mem_cons_of_mem _ hx))]
+  rw [hnew]
+  have hlisted : ∀ p, Listed (st.out ++ (if (st.remaining.map (fun e => ({ id := e.1, blobs := blobsOf e.1, size := none } : IndexPack))).isEmpty
+        then [] else [{ packs := st.remaining.map (fun e => ({ id := e.1, blobs := blobsOf e.1, size := none } : IndexPack)), packsToDelete := [] }])) p ↔
+      Listed st.out p ∨ ∃ e ∈ st.remaining, p = { id := e.1, blobs := blobsOf e.1, size := none } := by
+    intro p
+    split
+    · rename_i hem
+      have : st.remaining = [] := by simpa using hem
+      simp [this]
+    · rw [listed_append_single]
+      simp only [FileListed, List.mem_map, List.not_mem_nil, or_false]
+      constructor
+      · rintro (h | ⟨e, he, rfl⟩)
+        · exact Or.inl h
+        · exact Or.inr ⟨e, he, rfl⟩
+      · rintro (h | ⟨e, he, rfl⟩)
+        · exact Or.inl h
+        · exact Or.inr ⟨e, he, rfl⟩
+  refine ⟨?_, ?_⟩
+  · intro p hp
+    rcases (hlisted p).mp hp with h | ⟨e, he, rfl⟩
+    · exact ⟨(hinv.good p h).1, (hinv.good p h).2.1⟩
+    · exact ⟨⟨e, hinv.sub e he, rfl⟩, rfl⟩
+  · intro e he
+    rcases hinv.cover e he with hr | ⟨p, hp, hid⟩
+    · exact ⟨_, (hlisted _).mpr (Or.inr ⟨e, hr, rfl⟩), rfl⟩
+    · exact ⟨p, (hlisted p).mpr (Or.inl hp), hid⟩
+
+
+theorem checkOne_noMarks (readAll : Bool) (a : CheckAcc) (pd : IndexPack × Bool) (hd : pd.2 = false)
+    (h : a.newIndex.packsToDelete = []) : (checkOne readAll a pd).newIndex.packsToDelete = [] := by
+  unfold checkOne
+  split
+  · exact h
+  · split
+    · exact h
+    · simp [IndexFile.add, hd, h]
+
+theorem foldl_checkOne_noMarks (readAll : Bool) (L : List (IndexPack × Bool)) (a : CheckAcc)
+    (hd : ∀ pd ∈ L, pd.2 = false) (h : a.newIndex.packsToDelete = []) :
+    (L.foldl (checkOne readAll) a).newIndex.packsToDelete = [] := by
+  induction L generalizing a with
+  | nil => exact h
+  | cons pd L ih =>
+    rw [List.foldl_cons]
+    exact ih _ (fun q hq => hd q (List.mem_cons_of_mem _ hq))
+      (checkOne_noMarks readAll a pd (hd pd (List.mem_cons_self ..)) h)
+
+theorem repairFile_noMarks (readAll : Bool) (st : RepairAcc) (f : IndexFile) (hf : f.packsToDelete = [])
+    (h : ∀ g ∈ st.out, g.packsToDelete = []) : ∀ g ∈ (repairFile readAll st f).out, g.packsToDelete = [] := by
+  have hnf := foldl_checkOne_noMarks readAll f.allPacks
+    { remaining := st.remaining, toRead := st.toRead, newIndex := { packs := [], packsToDelete := [] }, changed := false }
+    (by
+      intro pd hpd
+      simp only [IndexFile.allPacks, hf, List.map_nil, List.append_nil, List.mem_map] at hpd
+      obtain ⟨q, _, rfl⟩ := hpd
+      rfl) rfl
+  unfold repairFile
+  simp only
+  intro g hg
+  split at hg
+  · split at hg
+    · exact h g hg
+    · rcases List.mem_append.mp hg with hg | hg
+      · exact h g hg
+      · simp only [List.mem_singleton] at hg; subst hg; exact hnf
+  · rcases List.mem_append.mp hg with hg | hg
+    · exact h g hg
+    · simp only [List.mem_singleton] at hg; subst hg; exact hf
+
+/-- if no remaining index file marks a pack for deletion, neither does the repaired index -/
+theorem repairIndex_noMarks (readHeader : Nat → Option Nat → Nat → Option (List IndexBlob)) (store : List (Nat × Nat))
+    (files : List IndexFile) (readAll : Bool) (hf : ∀ f ∈ files, f.packsToDelete = []) :
+    ∀ g ∈ repairIndex readHeader store files readAll, g.packsToDelete = [] := by
+  have key : ∀ (fs : List IndexFile) (st : RepairAcc), (∀ f ∈ fs, f.packsToDelete = []) →
+      (∀ g ∈ st.out, g.packsToDelete = []) → ∀ g ∈ (fs.foldl (repairFile readAll) st).out, g.packsToDelete = [] := by
+    intro fs
+    induction fs with
+    | nil => intro st _ h; exact h
+    | cons f fs ih =>
+      intro st hfs h
+      rw [List.foldl_cons]
+      exact ih _ (fun g hg => hfs g (List.mem_cons_of_mem _ hg))
+        (repairFile_noMarks readAll st f (hfs f (List.mem_cons_self ..)) h)
+  unfold repairIndex
+  simp only
+  intro g hg
+  rcases List.mem_append.mp hg with hg | hg
+  · exact key files _ hf (by simp) g hg
+  · split at hg
+    · cases hg
+    · simp only [List.mem_singleton] at hg; subst hg; rfl
+
 end Rustic.Index
